@@ -700,4 +700,17 @@ theorem handle_request_type (h : handle st k s r = some (s', resp, eff)) :
   all_goals (rw [ht]; decide)
 end
 
+theorem applyEffs_vouchers_same (st : State) (es : List Effect)
+    (h : ∀ e ∈ es, ∀ k d, e ≠ .replaceVoucher k d) : (applyEffs st es).vouchers = st.vouchers := by
+  unfold applyEffs
+  induction es generalizing st with
+  | nil => rfl
+  | cons e es ih =>
+    simp only [List.foldl_cons]
+    rw [ih _ (fun e' he' => h e' (List.mem_cons_of_mem _ he'))]
+    cases e with
+    | replaceVoucher k d => exact absurd rfl (h _ List.mem_cons_self k d)
+    | _ => rfl
+
+
 end Fdo.Proto.Server
